@@ -875,3 +875,67 @@ fn c18_ma_parse_len6() {
 	kani::cover!(!m.has_dash, "6 bytes without '-' reachable");
 	kani::cover!(!m.loose && m.has_dash && m.listed, "listed kind with a malformed length reachable");
 }
+
+/// "sma-" followed by N symbolic ASCII bytes (N = 3, 4): the 7/8-byte texts the generic harnesses do
+/// not reach.  The length text is accepted iff it is [+]digits whose value fits PeriodType (a value
+/// that does not fit cannot parse back to itself and must be rejected, never wrapped); an accepted
+/// text gives exactly that value.
+fn ma_parse_sma_tail<const N: usize>() -> (bool, u32) {
+	let tail: [u8; N] = kani::any();
+	let mut buf = [0u8; 8];
+	buf[0] = b's';
+	buf[1] = b'm';
+	buf[2] = b'a';
+	buf[3] = b'-';
+	let mut i = 0;
+	while i < N {
+		kani::assume(tail[i] < 128);
+		buf[4 + i] = tail[i];
+		i += 1;
+	}
+	let s = unsafe { core::str::from_utf8_unchecked(&buf[..4 + N]) };
+	let got: Result<MA, _> = s.parse();
+	let plus = tail[0] == b'+';
+	let ds = if plus { 1 } else { 0 };
+	let mut digits = ds < N;
+	let mut value: u32 = 0;
+	let mut t = ds;
+	while t < N {
+		let b = tail[t];
+		if b'0' <= b && b <= b'9' {
+			value = value * 10 + (b - b'0') as u32;
+		} else {
+			digits = false;
+		}
+		t += 1;
+	}
+	let fits = (value as u64) <= (PeriodType::MAX as u64);
+	match got {
+		Ok(m) => {
+			assert!(digits && fits, "only a length that is [+]digits and fits PeriodType may be accepted");
+			assert!(m == MA::SMA(value as PeriodType), "accepted text gives that length");
+		}
+		Err(_) => assert!(!(digits && fits && !plus), "\"sma-<digits>\" with a fitting length must be accepted"),
+	}
+	(digits, value)
+}
+
+#[kani::proof]
+#[kani::unwind(10)]
+fn c18_ma_parse_sma_tail3() {
+	let (digits, value) = ma_parse_sma_tail::<3>();
+	kani::cover!(digits && value == 255, "sma-255 reachable");
+	kani::cover!(digits && value == 256, "sma-256 reachable");
+	kani::cover!(digits && value == 999, "sma-999 reachable");
+	kani::cover!(!digits, "malformed length reachable");
+}
+
+#[kani::proof]
+#[kani::unwind(11)]
+fn c18_ma_parse_sma_tail4() {
+	let (digits, value) = ma_parse_sma_tail::<4>();
+	kani::cover!(digits && value == 255, "sma-0255 / sma-+255 reachable");
+	kani::cover!(digits && value == 9999, "sma-9999 reachable");
+	kani::cover!(digits && value == 512, "sma-0512 reachable");
+	kani::cover!(!digits, "malformed length reachable");
+}
